@@ -16,6 +16,12 @@ func (x *Exec) stdlib(fr *Frame, ins ssa.Instruction, fn *ssa.Function, args []V
 	case "math.Float64frombits":
 		x.note("trusted: math.Float64frombits is the IEEE-754 value of the bit pattern")
 		return x.f64frombits(args[0].(*Term)), true
+	case "bytes.Compare":
+		x.note("trusted: bytes.Compare(a, b) is -1/0/+1 as string(a) <, ==, > string(b)")
+		sa := x.bytesToStr(st, args[0].(*Term))
+		sb := x.bytesToStr(st, args[1].(*Term))
+		lt := x.strLt(sa, sb)
+		return ts.Ite(lt, ts.BV(^uint64(0), 64), ts.Ite(ts.Eq(sa, sb), ts.BV(0, 64), ts.BV(1, 64))), true
 	case "math.IsNaN":
 		return ts.App("fp.isNaN", SBool, args[0].(*Term)), true
 	case "math.IsInf":
@@ -32,4 +38,19 @@ func (x *Exec) stdlib(fr *Frame, ins ssa.Instruction, fn *ssa.Function, args []V
 
 func (x *Exec) stdlibMods(fn *ssa.Function, c *ssa.CallCommon) modset {
 	return nil
+}
+
+func (x *Exec) bytesToStr(st *State, v *Term) *Term {
+	ts := x.w.ts
+	n, s := "E_"+sanitize(string(SBV(8))), SArr(SInt, SArr(SBV(64), SBV(8)))
+	row := ts.Select(x.comp(st, n, s), x.w.sArr(v))
+	r := x.w.Fun("str_of_bytes", SStr, row, x.w.sOff(v), x.w.sLen(v))
+	x.assume(ts.Eq(x.w.strLen(r), x.w.sLen(v)))
+	return r
+}
+
+// strLt: the lexicographic order on strings, an uninterpreted strict total order.
+func (x *Exec) strLt(a, b *Term) *Term {
+	x.w.needStrOrder = true
+	return x.w.Fun("str_lt", SBool, a, b)
 }
